@@ -35,7 +35,8 @@ def data_strategy(draw, max_points=24):
     pts = []
     for t in temps:
         for _ in range(per):
-            x = draw(gen.uniform(0.02, 0.98))
+            # mostly interior points; sometimes an exact pure-end point (x = 0 or 1), which coincides with the zero points fit() adds
+            x = draw(st.one_of(gen.uniform(0.02, 0.98), gen.uniform(0.02, 0.98), gen.uniform(0.02, 0.98), st.sampled_from([0.0, 1.0])))
             if kind == "truth":
                 p = procs.truth_value(tr, x, t) * (1.0 + draw(gen.uniform(-0.03, 0.03)))
             else:
